@@ -1172,4 +1172,17 @@ example : (eSimulate (α := ℚ) 4 [(1/2, 1), (1/3, 2)] (1/4)).left = #[0, -1, -
     (eSimulate (α := ℚ) 4 [(1/2, 1), (1/3, 2)] (1/4)).ld = #[13/12, 7/12, 1/4] ∧
     (eSimulate (α := ℚ) 4 [(1/2, 1), (1/3, 2)] (1/4)).rd = #[1/2, 1/3, 1/4] := by decide +kernel
 
+/-- `esl_tree_Compare(T, T)` returns eslOK on every tree whose link tables agree (taxon children are found by
+    `esl_tree_SetTaxaParents`, internal children have larger numbers and point back through `parent[]`) — whatever the branch
+    lengths, numbering order among siblings, or size -/
+theorem compare_self_ok (t : ETree ℚ) (h : LinksAgree t) : eCompare t t = true := eCompare_self t h
+
+/-- non-vacuity: the simulated tree above has agreeing link tables -/
+example : LinksAgree (eSimulate (α := ℚ) 4 [(1/2, 1), (1/3, 2)] (1/4)) := by
+  intro g hg
+  have hN : (eSimulate (α := ℚ) 4 [(1/2, 1), (1/3, 2)] (1/4)).N - 1 = 3 := by decide +kernel
+  rw [hN] at hg
+  have : g = 0 ∨ g = 1 ∨ g = 2 := by omega
+  rcases this with rfl | rfl | rfl <;> (unfold ChildOK; decide +kernel)
+
 end EaselModel.Props.C16
